@@ -379,7 +379,7 @@ func partGraph(c *vfw.Ctx) {
 	}
 	maxDepth := 6
 	if c.Thorough() {
-		maxDepth = 9
+		maxDepth = 8
 	}
 	seen := map[string]bool{}
 	type node struct{ hist []action }
